@@ -129,6 +129,9 @@ func loadContracts(files []string) (*Contracts, error) {
 		}
 		cs.Files = append(cs.Files, f)
 	}
+	if err := cs.mergeExtensions(); err != nil { // ext_c07.go: `extend func`
+		return nil, err
+	}
 	return cs, nil
 }
 
@@ -251,6 +254,13 @@ func (cs *Contracts) loadFile(path string) error {
 				}
 			} else {
 				cs.Funcs[fs.Key] = fs
+			}
+			cur, curLemma = fs, nil
+		case "extend":
+			// extend func (recv) Name: additional clauses for a contract that lives in another file (ext_c07.go)
+			fs, err := cs.beginExtend(rest, pkg, src, trusted)
+			if err != nil {
+				return fail(err)
 			}
 			cur, curLemma = fs, nil
 		case "spec", "uninterp", "rec":
